@@ -17,8 +17,7 @@ Repaired in /repo and therefore stated at full strength here (witnesses stay in 
   D65     (587ec42)  raw bytes that are not well-formed UTF-8 are kept
 
 Level: proof, partial. What the theorems do NOT cover (observed by the correspondence harness on
-the implementation instead): that the recursion fuel of the model parser is never exhausted
-(`parse_outcome_partial`); a general statement that every node position is the true position of
+the implementation instead): a general statement that every node position is the true position of
 its first token outside D18/D19/D20/D61/D62 (only the token-level theorem `tok_pos_partial` and
 the witnesses are proved; the parser-level statement is checked on generated documents);
 token-level and grammar-level print/parse round trips (not attempted); Go panics and
@@ -27,6 +26,7 @@ token-level and grammar-level print/parse round trips (not attempted); Go panics
 import ThriftVerif.Idl.QuoteProofs
 import ThriftVerif.Idl.NumberProofs
 import ThriftVerif.Idl.ParserProofs
+import ThriftVerif.Idl.FuelProofs
 import ThriftVerif.Idl.WalkProofs
 import ThriftVerif.Idl.TokenProofs
 import ThriftVerif.Idl.Observe
@@ -36,17 +36,17 @@ open ThriftVerif.Idl
 
 /-! ### (a) program xor a non-empty list of errors, positioned on lines of the document -/
 
-/-- `parse` is a total function whose result is a program or an error list that is non-empty
-*by its type* (`Errors` has a first element). PARTIAL: the model parser is fuel-indexed and the
-third outcome `outOfFuel` is not excluded by proof (fuel = number of tokens + 2 per recursive
-function; the driver would answer `fuel`, which the harness reports as a disagreement — never
-observed). -/
-theorem parse_outcome_partial (s : Bytes) :
-    (∃ p, parse s = .program p) ∨ (∃ e, parse s = .errors e ∧ e.toList ≠ []) ∨ parse s = .outOfFuel := by
+/-- `parse` is a total function and its result is EITHER a program OR a list of errors that is
+non-empty by its type (`Errors` has a first element) — never both, never neither. The third
+constructor of `ParseResult`, the model parser's `outOfFuel`, is impossible: the fuel
+(2 · tokens + 2) always suffices (`parse_ne_outOfFuel`: every shift shortens the remaining token
+list, every recursive call follows a shift, a nested constant costs two units per bracket). -/
+theorem parse_outcome (s : Bytes) :
+    (∃ p, parse s = .program p) ∨ (∃ e, parse s = .errors e ∧ e.toList ≠ []) := by
   cases h : parse s with
   | program p => exact Or.inl ⟨p, rfl⟩
-  | errors e => exact Or.inr (Or.inl ⟨e, rfl, by simp [Errors.toList]⟩)
-  | outOfFuel => exact Or.inr (Or.inr rfl)
+  | errors e => exact Or.inr ⟨e, rfl, by simp [Errors.toList]⟩
+  | outOfFuel => exact absurd h (parse_ne_outOfFuel s)
 
 /-- Every reported error lies on a line of the document: 1 ≤ line ≤ (number of `\n`) + 1. -/
 theorem error_lines_in_doc (s : Bytes) (e : Errors) (h : parse s = .errors e) :
